@@ -959,8 +959,10 @@ impl<'de, R: Read<'de>> Parser<R> {
                     }
                     b'.' => {
                         self.eat_char();
-                        let next = self.peek_or_null()?;
-                        if next == 0 || is_delimiter(next) {
+                        // A lone dot is one that the symbol scanner would not
+                        // continue: `.|x` and `."x` are symbols here as they
+                        // are everywhere else.
+                        if self.peek()?.map_or(true, ends_symbol) {
                             if !have_value {
                                 // At the end of input, the dot may still
                                 // become a symbol such as `...`
@@ -1025,8 +1027,10 @@ impl<'de, R: Read<'de>> Parser<R> {
                     b'.' => {
                         let start = self.read.position();
                         self.eat_char();
-                        let next = self.peek_or_null()?;
-                        if next == 0 || is_delimiter(next) {
+                        // A lone dot is one that the symbol scanner would not
+                        // continue: `.|x` and `."x` are symbols here as they
+                        // are everywhere else.
+                        if self.peek()?.map_or(true, ends_symbol) {
                             if !have_value {
                                 // At the end of input, the dot may still
                                 // become a symbol such as `...`
@@ -1478,6 +1482,11 @@ static SYMBOL_EXTENDED: [u8; 16] = [
 
 fn is_delimiter(c: u8) -> bool {
     c.is_ascii_whitespace() || b"|()[]\";".contains(&c)
+}
+
+// The bytes at which `parse_symbol` stops scanning.
+fn ends_symbol(c: u8) -> bool {
+    c.is_ascii_whitespace() || b"()[];".contains(&c)
 }
 
 // This implements the <sign subsequent> nonterminal of R7RS 7.1.1
